@@ -235,48 +235,54 @@ Proof.
   cbn. f_equal. apply IH.
 Qed.
 
-Lemma obs_range k1 k2 a b : nth_error (abs s) k1 = Some a -> nth_error (abs s) k2 = Some b -> (k1 <= k2)%nat ->
+Lemma obs_range k1 k2 a b : nth_error (abs s) k1 = Some a -> nth_error (abs s) k2 = Some b ->
   iter_range s a b = Ok (firstn (k2 + 1 - k1) (skipn k1 (abs s))).
 Proof.
-  intros Ha Hb Hk.
+  intros Ha Hb.
   destruct (locate_inv s k1 a I Ha) as (i1 & b1 & j1 & Hb1 & Ht1 & E1 & Hh1 & Hi1).
   destruct (locate_inv s k2 b I Hb) as (i2 & b2 & j2 & Hb2 & Ht2 & E2 & Hh2 & Hi2).
   pose proof (nth_error_in_len _ _ _ Ht1) as L1. pose proof (nth_error_in_len _ _ _ Ht2) as L2.
   unfold iter_range. rewrite !check_handle_hnd, Hh1, Hh2. fold (toks s b1) (toks s b2) (bidx s b1) (bidx s b2).
-  rewrite Hi1, Hi2. f_equal. subst k1 k2. unfold abs.
+  rewrite Hi1, Hi2. subst k1 k2. unfold abs.
   rewrite (flat_skipn_at (toks s) _ i1 b1 j1 Hb1) by lia.
   destruct (Pos.eqb_spec b1 b2) as [<-|N].
   - assert (i1 = i2) as <-.
     { pose proof (g_nd _ _ I) as ND. rewrite NoDup_nth_error in ND. apply ND; [eapply nth_error_in_len; eassumption|congruence]. }
-    replace (Z.of_nat j2 + 1 - Z.of_nat j1) with (Z.of_nat (j2 + 1 - j1)) by lia.
-    rewrite zfirstn_nat, zskipn_nat, firstn_app.
+    f_equal. unfold zfirstn. replace (Z.to_nat (Z.of_nat j2 + 1 - Z.of_nat j1)) with (j2 + 1 - j1)%nat by lia.
+    rewrite zskipn_nat, firstn_app.
     replace (length (flat_map (toks s) (firstn i1 (s_blocks s))) + j2 + 1
              - (length (flat_map (toks s) (firstn i1 (s_blocks s))) + j1))%nat with (j2 + 1 - j1)%nat by lia.
     rewrite skipn_length. replace (j2 + 1 - j1 - (length (toks s b1) - j1))%nat with 0%nat by lia.
     cbn [firstn]. rewrite app_nil_r. reflexivity.
-  - assert (i1 < i2)%nat as Lt.
-    { destruct (Nat.lt_trichotomy i1 i2) as [?|[->|G]]; [assumption|congruence|]. exfalso.
-      pose proof (flat_firstn_mono (toks s) (s_blocks s) (S i2) i1 G) as M.
-      rewrite (flat_firstn_S _ _ i2 b2 Hb2), app_length in M. lia. }
-    set (m := (i2 - S i1)%nat). set (R := skipn (S i1) (s_blocks s)).
-    assert (nth_error R m = Some b2) as Hm.
-    { unfold R, m. rewrite nth_error_skipn_add. replace (S i1 + (i2 - S i1))%nat with i2 by lia. assumption. }
-    replace (Z.of_nat i2 - (Z.of_nat i1 + 1)) with (Z.of_nat m) by lia.
-    replace (Z.of_nat i1 + 1) with (Z.of_nat (S i1)) by lia.
-    replace (Z.of_nat j2 + 1) with (Z.of_nat (S j2)) by lia.
-    rewrite !zfirstn_nat, !zskipn_nat. fold R.
-    assert (length (flat_map (toks s) (firstn i2 (s_blocks s)))
-            = length (flat_map (toks s) (firstn i1 (s_blocks s))) + length (toks s b1)
-              + length (flat_map (toks s) (firstn m R)))%nat as EF.
-    { replace i2 with (S i1 + m)%nat at 1 by lia. rewrite firstn_add_split, flat_map_app, app_length.
-      rewrite (flat_firstn_S _ _ i1 b1 Hb1), app_length. reflexivity. }
-    replace (length (flat_map (toks s) (firstn i2 (s_blocks s))) + j2 + 1
-             - (length (flat_map (toks s) (firstn i1 (s_blocks s))) + j1))%nat
-      with (length (skipn j1 (toks s b1)) + (length (flat_map (toks s) (firstn m R)) + S j2))%nat
-      by (rewrite skipn_length; lia).
-    change (fun x => b_toks (bget (s_heap s) x)) with (toks s).
-    rewrite firstn_app_2. apply f_equal. apply (f_equal (app _)).
-    rewrite (flat_firstn_at (toks s) R m b2 (S j2) Hm) by lia. reflexivity.
+  - destruct (Z.ltb_spec (Z.of_nat i2) (Z.of_nat i1)) as [G|G].
+    + (* the start lies in a later block: nothing *)
+      assert (i2 < i1)%nat as G' by lia.
+      pose proof (flat_firstn_mono (toks s) (s_blocks s) (S i2) i1 G') as M.
+      rewrite (flat_firstn_S _ _ i2 b2 Hb2), app_length in M.
+      replace (length (flat_map (toks s) (firstn i2 (s_blocks s))) + j2 + 1
+               - (length (flat_map (toks s) (firstn i1 (s_blocks s))) + j1))%nat with 0%nat by lia. reflexivity.
+    + assert (i1 < i2)%nat as Lt.
+      { destruct (Nat.lt_trichotomy i1 i2) as [?|[->|?]]; [assumption|congruence|lia]. }
+      f_equal.
+      set (m := (i2 - S i1)%nat). set (R := skipn (S i1) (s_blocks s)).
+      assert (nth_error R m = Some b2) as Hm.
+      { unfold R, m. rewrite nth_error_skipn_add. replace (S i1 + (i2 - S i1))%nat with i2 by lia. assumption. }
+      replace (Z.of_nat i2 - (Z.of_nat i1 + 1)) with (Z.of_nat m) by lia.
+      replace (Z.of_nat i1 + 1) with (Z.of_nat (S i1)) by lia.
+      replace (Z.of_nat j2 + 1) with (Z.of_nat (S j2)) by lia.
+      rewrite !zfirstn_nat, !zskipn_nat. fold R.
+      assert (length (flat_map (toks s) (firstn i2 (s_blocks s)))
+              = length (flat_map (toks s) (firstn i1 (s_blocks s))) + length (toks s b1)
+                + length (flat_map (toks s) (firstn m R)))%nat as EF.
+      { replace i2 with (S i1 + m)%nat at 1 by lia. rewrite firstn_add_split, flat_map_app, app_length.
+        rewrite (flat_firstn_S _ _ i1 b1 Hb1), app_length. reflexivity. }
+      replace (length (flat_map (toks s) (firstn i2 (s_blocks s))) + j2 + 1
+               - (length (flat_map (toks s) (firstn i1 (s_blocks s))) + j1))%nat
+        with (length (skipn j1 (toks s b1)) + (length (flat_map (toks s) (firstn m R)) + S j2))%nat
+        by (rewrite skipn_length; lia).
+      change (fun x => b_toks (bget (s_heap s) x)) with (toks s).
+      rewrite firstn_app_2. apply (f_equal (app _)).
+      rewrite (flat_firstn_at (toks s) R m b2 (S j2) Hm) by lia. reflexivity.
 Qed.
 
 End Obs.
